@@ -14,6 +14,7 @@
 -/
 import QV.Proofs.Cfg
 import QV.Model.Finalize
+import QV.Proofs.BuilderInvBuild
 
 namespace QV.Props.C06
 open QV.Model QV.Model.Cfg QV.Proofs.Cfg
@@ -141,5 +142,139 @@ private def undefinedRead : CodeBody :=
     locals := [.int] }
 
 example : check undefinedRead = false := by decide
+
+end QV.Props.C06
+
+/-! ## APPENDED SECTION — the builder itself, for ALL programs
+
+  The theorems above speak about the CHECKER.  The theorems below speak about the model COMPILER
+  `QV.Model.build` (= `tir::build` / `tir::build_callback`, tied to the real code by the exact-IR stream): they hold
+  for every context, every program (all expression and statement forms, bindings and callback functions, accepted
+  or not, any nesting depth) — no fragment restriction, no generator.  Proofs: `QV.Proofs.BuilderInv{Base,Visit,
+  Walk,Stmt,Finalize,Build}` (an invariant of the walk over the control-flow skeleton "number of blocks +
+  terminator of every block": every terminator set so far targets existing blocks and is never the marker; every
+  block except the current one is closed or is a pending branch point that the enclosing visitor closes; then the
+  graph invariant of `finalize_completion_values`' reverse walk: a block left as `unreachable` is never the target
+  of an edge and never the entry, unless the pass reported its "unreachable code" panic).
+
+  Form: the SEMANTIC form — the conjuncts of `checkCfg_sound`'s conclusion, for every `Reaches` path — not
+  `check code = true` (which would in addition depend on the untrusted certificate producers computeReach /
+  computeIns being complete).
+
+  Proved: (1) jump targets, (2) terminators / the unreachable marker, and their combination = the control-flow
+  half of `checkCfg_sound`'s conclusion.
+  (3) define-before-use: the attempt to set up its invariant ("the name map only holds locals that are assigned
+  on every path to the current block") failed at `walkBodies`: all clauses of a `switch` shared one name map, but
+  a clause is entered by a jump from the switch head, so a variable declared WITH initialiser in an earlier clause
+  could be read in a later clause without having been assigned.  Running the real compiler at that point confirmed
+  the defect (finding F100: `switch (a.value) { case 1: let v = a.value + 10; case 2: return v; }` was accepted,
+  exit status 0, and the emitted C++ reached `return a5;` from the head with `a5` never assigned); repaired in
+  /repo by 0aff63c (every clause starts from the name map before the switch) and in the model; `f100BodyOld` below
+  is the pre-repair output, with the kernel-checked witness `f100_defines_before_use_old_refuted`.
+  The statements that remain open are kept as `def … : Prop`. -/
+
+namespace QV.Props.C06
+open QV.Model QV.Model.Cfg QV.Proofs.Cfg
+
+/-- **(1) Every jump of a built body targets an existing block** — all blocks, reachable or not; no hypothesis
+    on diagnostics or panics. -/
+theorem build_targets_exist (ctx : Ctx) (callback : Bool) (p : Program) (code : CodeBody)
+    (h : (build ctx callback p).code = some code) :
+    ∀ (i : Nat) (b : BasicBlock), code.blocks[i]? = some b →
+      ∀ j ∈ successors b.terminator, j < code.blocks.length :=
+  QV.Proofs.BuilderInv.build_targets_exist ctx callback p code h
+
+/-- **(2a) A built body has an entry block and every block has a terminator** (possibly the marker). -/
+theorem build_blocks_terminated (ctx : Ctx) (callback : Bool) (p : Program) (code : CodeBody)
+    (h : (build ctx callback p).code = some code) :
+    0 < code.blocks.length ∧ ∀ (i : Nat) (b : BasicBlock), code.blocks[i]? = some b → b.terminator.isSome = true :=
+  QV.Proofs.BuilderInv.build_blocks_terminated ctx callback p code h
+
+/-- **(2b) The exact invariant behind "no reachable block is `unreachable`"**: if `build` reports no panic, a
+    block carrying the marker is not the entry and NO block at all (reachable or not) jumps to it. -/
+theorem build_unreachable_isolated (ctx : Ctx) (callback : Bool) (p : Program) (code : CodeBody)
+    (h : (build ctx callback p).code = some code) (hp : (build ctx callback p).panic = none) :
+    ∀ (i : Nat) (b : BasicBlock), code.blocks[i]? = some b → b.terminator = some .unreachable →
+      i ≠ 0 ∧ ∀ (j : Nat) (bj : BasicBlock), code.blocks[j]? = some bj → i ∉ successors bj.terminator :=
+  QV.Proofs.BuilderInv.build_unreachable_isolated ctx callback p code h hp
+
+/-- **(2c)** … hence no execution path arrives at such a block. -/
+theorem build_no_reachable_unreachable (ctx : Ctx) (callback : Bool) (p : Program) (code : CodeBody)
+    (h : (build ctx callback p).code = some code) (hp : (build ctx callback p).panic = none) :
+    ∀ (i : Nat) (A : List Nat), Reaches code i A →
+      ∀ b, code.blocks[i]? = some b → b.terminator ≠ some .unreachable :=
+  QV.Proofs.BuilderInv.build_no_reachable_unreachable ctx callback p code h hp
+
+/-- **(4, control-flow half) The first four conjuncts of `checkCfg_sound`'s conclusion hold for every output of
+    the builder, on every path** — exactly the conclusion of `check_sound`, without running any check. -/
+theorem build_control_flow_sound (ctx : Ctx) (callback : Bool) (p : Program) (code : CodeBody)
+    (h : (build ctx callback p).code = some code) (hp : (build ctx callback p).panic = none) :
+    ∀ (i : Nat) (A : List Nat), Reaches code i A →
+      ∃ (b : BasicBlock) (t : Terminator), code.blocks[i]? = some b ∧ b.terminator = some t ∧
+        t ≠ Terminator.unreachable ∧ (∀ j ∈ successors b.terminator, j < code.blocks.length) :=
+  QV.Proofs.BuilderInv.build_control_flow_sound ctx callback p code h hp
+
+/-- (3), open (it was false before the repair 0aff63c, see `f100BodyOld`): on every path, every read of a local that
+    the user did not declare without initialiser is preceded by an assignment. -/
+def build_defines_before_use_full_statement : Prop :=
+  ∀ (ctx : Ctx) (callback : Bool) (p : Program) (code : CodeBody),
+    (build ctx callback p).code = some code → (build ctx callback p).panic = none →
+    ∀ (i : Nat) (A : List Nat), Reaches code i A → ∀ b, code.blocks[i]? = some b →
+      (∀ (k : Nat) (s : Statement), b.statements[k]? = some s →
+        ∀ x ∈ stmtReads s, x ∉ (build ctx callback p).userUninit → x ∈ defsOf (b.statements.take k) ++ A) ∧
+      (∀ t, b.terminator = some t →
+        ∀ x ∈ termReads t, x ∉ (build ctx callback p).userUninit → x ∈ defsOf b.statements ++ A)
+
+/-- (4), the whole of it in the semantic form: `build_control_flow_sound` ∧ (3).  Open with (3). -/
+def build_passes_check_semantic_full_statement : Prop :=
+  ∀ (ctx : Ctx) (callback : Bool) (p : Program) (code : CodeBody),
+    (build ctx callback p).code = some code → (build ctx callback p).panic = none →
+    ∀ (i : Nat) (A : List Nat), Reaches code i A →
+      ∃ (b : BasicBlock) (t : Terminator), code.blocks[i]? = some b ∧ b.terminator = some t ∧
+        t ≠ Terminator.unreachable ∧
+        (∀ j ∈ successors b.terminator, j < code.blocks.length) ∧
+        (∀ (k : Nat) (s : Statement), b.statements[k]? = some s →
+          ∀ x ∈ stmtReads s, x ∉ (build ctx callback p).userUninit → x ∈ defsOf (b.statements.take k) ++ A) ∧
+        (∀ x ∈ termReads t, x ∉ (build ctx callback p).userUninit → x ∈ defsOf b.statements ++ A)
+
+/-- the two open statements differ exactly by the proved half -/
+theorem build_passes_check_semantic_of_defines_before_use :
+    build_defines_before_use_full_statement → build_passes_check_semantic_full_statement := by
+  intro h3 ctx callback p code h hp i A hr
+  obtain ⟨b, t, hb, ht, hne, htg⟩ := build_control_flow_sound ctx callback p code h hp i A hr
+  obtain ⟨h1, h2⟩ := h3 ctx callback p code h hp i A hr b hb
+  exact ⟨b, t, hb, ht, hne, htg, h1, h2 t ht⟩
+
+/-- the (pre-analysis) body the REAL compiler emitted BEFORE the repair 0aff63c for
+    `switch (b.i) { case 1: let v = b.j; case 2: return v; } return 0` (finding F100; blocks, terminators, locals
+    and the assigned/read locals as emitted; the two property reads abbreviated to the default property record):
+    block 5 (`case 2`) is entered from block 1 and returns local 4, which only block 4 (`case 1`) assigns. -/
+def f100BodyOld : CodeBody :=
+  { blocks := [
+      { statements := [.assign 0 (.readProperty (.namedObject "b" "VBase") default),
+                       .assign 1 (.binary (.cmp .eq) (.local 0 .int) (.const (.integer 1)))],
+        terminator := some (.brCond (.local 1 .bool) 4 1) },
+      { statements := [.assign 2 (.binary (.cmp .eq) (.local 0 .int) (.const (.integer 2)))],
+        terminator := some (.brCond (.local 2 .bool) 5 7) },
+      { statements := [], terminator := some (.br 4) },
+      { statements := [], terminator := some (.br 7) },
+      { statements := [.assign 3 (.readProperty (.namedObject "b" "VBase") default),
+                       .assign 4 (.copy (.local 3 .int))],
+        terminator := some (.br 5) },
+      { statements := [], terminator := some (.ret (.local 4 .int)) },
+      { statements := [], terminator := some (.br 7) },
+      { statements := [], terminator := some (.ret (.const (.integer 0))) },
+      { statements := [], terminator := some .unreachable }],
+    locals := [.int, .bool, .bool, .int, .int] }
+
+/-- the pre-repair output is rejected by the check, and rightly so: a path entry → block 1 → block 5 exists on
+    which local 4, which block 5 returns, has not been assigned -/
+theorem f100_defines_before_use_old_refuted :
+    check f100BodyOld = false ∧
+    ∃ A, Reaches f100BodyOld 5 A ∧ f100BodyOld.blocks[5]?.bind (·.terminator) = some (.ret (.local 4 .int)) ∧ 4 ∉ A :=
+  ⟨by decide,
+   _, .step (j := 5) (b := f100BodyOld.blocks[1])
+        (.step (j := 1) (b := f100BodyOld.blocks[0]) .entry rfl (by decide)) rfl (by decide),
+   by decide, by decide⟩
 
 end QV.Props.C06
